@@ -7,6 +7,7 @@ compared with what the guesser's and the scorer's OMEN loaders return; every ter
 LF-only reader, guesser loader, scorer loader) which must agree; config.ini file lists must name exactly the files that exist, also when a rule
 name is trained again (every history of 2 / 3 trainings over five lists that fill different categories).
 """
+import codecs
 import contextlib
 import io
 import itertools
@@ -83,6 +84,7 @@ def jobs(tier):
     sh.append(('retrain', 'utf-8'))
     sh.append(('locale', 0))
     sh.append(('flat', 0))
+    sh.append(('probs', 0))
     # terminal files of more than 10 000 lines (what any real list gives), also under encodings that start a stream with a byte order mark
     for enc in ('utf-8', 'utf-16', 'utf-8-sig'):
         sh.append(('bigfile', enc))
@@ -484,6 +486,47 @@ def run_flat(tier, acc):
     tree.rmtree(wd)
 
 
+def run_probs(acc):
+    """Files whose neighbouring records have probabilities that are almost equal (next double, 1e-13 and 1e-16 apart, relative and absolute, down to
+    1e-300): both readers give every value back with exactly the probability written next to it."""
+    import math
+    m = get_mods()
+    root = tree.mkdtemp('pcfgmc-c07p-')
+    path = os.path.join(root, 'p.txt')
+    cols = []
+    for base in (0.25, 0.1, 1e-5, 1.8168166804278433e-12, 3e-17, 1e-300):
+        nxt = math.nextafter(base, 0.0)
+        cols.append([base, nxt, math.nextafter(nxt, 0.0)])
+        cols.append([base, base * (1 - 1e-13), base * (1 - 2e-13)])
+        cols.append([base, base * (1 - 1e-10), base * (1 - 1e-9), base * (1 - 1e-6)])
+        cols.append([base, base, nxt, nxt])
+    cols.append([1.8168166804278433e-12, 1.5182176690791375e-12, 1.3951419119931426e-12, 1e-13, 9e-14])      # what a large list gives the OMEN levels
+    cols.append([5e-13, 4e-13, 3e-13, 0.0, 0.0])
+    for ci, col in enumerate(cols):
+        for enc in ('utf-8', 'utf-16'):
+            acc.evals += 1
+            acc.nontrivial += 1
+            rows = [('v%d' % i, p) for i, p in enumerate(col)]
+            with codecs.open(path, 'w', encoding=enc) as f:
+                for v, p in rows:
+                    f.write('%s\t%s\n' % (v, repr(p)))
+            sec, sc = [], {}
+            sink = io.StringIO()
+            with contextlib.redirect_stdout(sink), contextlib.redirect_stderr(sink):
+                okg = m['gload'](sec, path, enc)
+                oks = m['sload'](sc, path, enc)
+            case = {'layer': 'probs', 'column': [repr(p) for p in col], 'encoding': enc}
+            got_g = [(v, grp['prob']) for grp in sec for v in grp['values']]
+            if not okg or got_g != rows:
+                bad = next((a for a, b in zip(got_g, rows) if a != b), None)
+                acc.fail(case, 'guesser loader: file holds %r, read back %r%s' % ([(v, repr(p)) for v, p in rows], [(v, repr(p)) for v, p in got_g],
+                                                                                  '' if bad is None else ' (first difference: %r)' % (bad,)), 'probs-guesser')
+            got_s = list(sc.items())
+            if not oks or got_s != rows:
+                acc.fail(case, 'scorer loader: file holds %r, read back %r' % ([(v, repr(p)) for v, p in rows], [(v, repr(p)) for v, p in got_s]), 'probs-scorer')
+    tree.rmtree(root)
+
+
 def run_bigfile(enc, tier, acc):
     nums = [str(x) for x in range(300000, 360000) if '19' not in str(x) and '20' not in str(x)][:10400 if tier == 'quick' else 25000]
     lines = nums + ['password', 'Password1', 'x yz', 'caf\u00e9']
@@ -552,6 +595,8 @@ def run_shard(shard, tier, acc):
         return run_bigfile(shard[1], tier, acc)
     if kind == 'flat':
         return run_flat(tier, acc)
+    if kind == 'probs':
+        return run_probs(acc)
     if kind == 'hexjunk':
         return run_hexjunk(shard[1], acc)
     if kind == 'retrain':
@@ -626,6 +671,11 @@ def replay(case):
         run_bigfile(case['encoding'], 'quick', acc)
         tree.rmtree(wd)
         return acc.failures[0]['msg'] if acc.failures else None
+    if case['layer'] == 'probs':
+        run_probs(acc)
+        fs = [f for f in acc.failures if f['case'] == case]
+        tree.rmtree(wd)
+        return fs[0]['msg'] if fs else None
     if case['layer'] == 'flat':
         fails = compare_training(wd, FLAT_LISTS[case['list']], case['encoding'], acc, None)
         tree.rmtree(wd)
